@@ -813,6 +813,31 @@ func (c *GenCase) classifyL2(r *evid.Recorder, exp *model, nontrivialL1 bool) {
 			r.Class("l2:shared-out")
 		}
 	}
+	archDirs := map[string]map[string]bool{}
+	for _, p := range c.Plugins {
+		k := outKey(p.Out)
+		if isArchive(k) {
+			if archDirs[path.Dir(k)] == nil {
+				archDirs[path.Dir(k)] = map[string]bool{}
+			}
+			archDirs[path.Dir(k)][k] = true
+		}
+	}
+	for d, as := range archDirs {
+		if len(as) >= 2 {
+			r.Class("l2:several-archives-in-one-directory")
+		}
+		for _, p := range c.Plugins {
+			if !isArchive(outKey(p.Out)) && outKey(p.Out) == d {
+				r.Class("l2:archive-inside-another-plugins-out-directory")
+			}
+		}
+	}
+	for o, n := range outs {
+		if n >= 2 && isArchive(o) {
+			r.Class("l2:archive-shared-by-two-plugins")
+		}
+	}
 	if hostile {
 		r.Class("l2:hostile-name")
 	}
@@ -977,9 +1002,21 @@ func evidRare(p string) bool { return evidHash(p)%8 != 0 }
 func genL2(t *rapid.T) *GenCase {
 	c := &GenCase{Kind: "l2", Src: genSrc(t, false)}
 	c.Version = []string{"v2", "v2", "v2", "v1"}[rapid.IntRange(0, 3).Draw(t, "version")]
-	outsPool := []string{"gen", "gen/go", "out2", "deep/a/b", "gen.zip", "lib.jar", "./gen", "gen/", "gen", "out2", "arch/sub.zip", "gen", "gen/go", "out2", "deep/a/b", "gen.zip", "lib.jar", "./gen", "gen/", "gen", "out2", "arch/sub.zip", absToken + "/area/gen"}
+	// out values: directories (nested ones, several spellings of one) and .zip/.jar archives - at the
+	// root of the working directory (several in one directory), inside another plugin's out directory
+	// (gen/, out2/), in a directory that does not exist yet (arch/)
+	dirOuts := []string{"gen", "gen/go", "out2", "deep/a/b", "./gen", "gen/", "gen", "out2", "gen/go/sub", absToken + "/area/gen"}
+	archiveOuts := []string{"gen.zip", "lib.jar", "pkg.zip", "api.jar", "gen/bundle.jar", "gen/other.zip", "gen/go/inner.zip", "out2/a.jar", "arch/sub.zip"}
+	archiveBias := rapid.IntRange(0, 3).Draw(t, "archive-bias") == 0 // a case where most outs are archives
+	drawOut := func() string {
+		arch := rapid.IntRange(0, 9).Draw(t, "out-kind")
+		if (archiveBias && arch < 8) || (!archiveBias && arch < 3) {
+			return archiveOuts[rapid.IntRange(0, len(archiveOuts)-1).Draw(t, "out-archive")]
+		}
+		return dirOuts[rapid.IntRange(0, len(dirOuts)-1).Draw(t, "out-dir")]
+	}
 	n := rapid.IntRange(1, 4).Draw(t, "nplugins")
-	c.Existing = map[string]string{"gen/existing.txt": "old\n// @@protoc_insertion_point(scope)\n", "out2/existing.txt": "old\n// @@protoc_insertion_point(scope)\n", "unrelated/keep.txt": "keep\n"}
+	c.Existing = map[string]string{"gen/existing.txt": "old\n// @@protoc_insertion_point(scope)\n", "out2/existing.txt": "old\n// @@protoc_insertion_point(scope)\n", "unrelated/keep.txt": "keep\n", "gen/go/keep.txt": "keep\n", "base/keep.txt": "keep\n", "base/deeper/keep.txt": "keep\n"}
 	paths := c.Src.allPaths()
 	if rapid.IntRange(0, 2).Draw(t, "use-path") != 0 && len(paths) > 1 {
 		// only some directories are targets: the rest of the workspace is import-only
@@ -1015,7 +1052,7 @@ func genL2(t *rapid.T) *GenCase {
 	special := rapid.IntRange(0, n-1).Draw(t, "special-plugin")
 	for i := 0; i < n; i++ {
 		p := Plugin{Opt: fmt.Sprintf("p%d", i)}
-		p.Out = outsPool[rapid.IntRange(0, len(outsPool)-1).Draw(t, "out")]
+		p.Out = drawOut()
 		if i > 0 && rapid.IntRange(0, 2).Draw(t, "share-out") == 0 {
 			p.Out = c.Plugins[rapid.IntRange(0, i-1).Draw(t, "share-with")].Out
 		}
